@@ -5,6 +5,7 @@ import (
 	"encoding/binary"
 	"fmt"
 	"sync/atomic"
+	"time"
 
 	"verif/core"
 	rl "verif/ref/lzhuf"
@@ -132,17 +133,25 @@ func C08(args []string) {
 		readJSON(p, &f)
 		var st []byte
 		fmt.Sscanf(f.Case.StreamHex, "%x", &st)
-		c, d, _ := c08Judge(st, f.Case.CRC, f.Case.ReadSize, f.Case.SrcChunk)
-		fmt.Printf("stream %x crc=%v read=%d: class=%q %s\n", st, f.Case.CRC, f.Case.ReadSize, c, d)
+		sizes := []int{f.Case.ReadSize}
+		if f.Case.ReadSize < 0 { // recorded by the supervisor: the stream in flight when a worker hung; try every read size
+			sizes = []int{1, 2, 7, 64, 4096}
+			fmt.Printf("stream %x crc=%v: a Read that never returns makes this replay hang as well\n", st, f.Case.CRC)
+		}
+		for _, k := range sizes {
+			c, d, _ := c08Judge(st, f.Case.CRC, k, f.Case.SrcChunk)
+			fmt.Printf("stream %x crc=%v read=%d: class=%q %s\n", st, f.Case.CRC, k, c, d)
+		}
 		return
 	}
-	var streams atomic.Int64
 	readSizes := []int{1, 7, 4096}
 	if r.Thorough() {
 		readSizes = []int{1, 2, 7, 64, 4096}
 	}
 	judge := func(family string, st []byte, crc bool, rs []int) {
-		streams.Add(1)
+		r.Add("streams", 1)
+		// what is in flight, for the supervisor: a Read that never returns stops the heartbeat
+		r.InFlight(append([]byte{map[bool]byte{false: 0, true: 1}[crc]}, st...))
 		nt := false
 		for _, k := range rs {
 			for _, sc := range []int{0, 1} {
@@ -198,7 +207,7 @@ func C08(args []string) {
 		k := len(v16)
 		bodies = append(bodies, []byte{v16[i%k], v16[i/k%k], v16[i/k/k%k]})
 	}
-	core.ParallelFor(len(bodies), func(i int) {
+	caseA := func(i int) {
 		for _, sz := range sizes {
 			for mode := 0; mode < 3; mode++ {
 				st, crc := mkStream(sz, bodies[i], mode)
@@ -212,7 +221,7 @@ func C08(args []string) {
 		if i%7919 == 0 {
 			r.Sample(map[string]any{"family": "boundary-header", "body_hex": hexs(bodies[i]), "sizes": sizes})
 		}
-	})
+	}
 	// (b) corpus mutations
 	corpus := c08Corpus(r.Thorough())
 	var valid [][]byte
@@ -220,7 +229,7 @@ func C08(args []string) {
 		valid = append(valid, rl.EncodeB2(in))
 	}
 	allRS := []int{1, 2, 7, 64, 4096}
-	core.ParallelFor(len(valid), func(i int) {
+	caseB := func(i int) {
 		st := valid[i]
 		judge("valid", st, true, allRS)
 		judge("valid", st[2:], false, allRS)
@@ -256,7 +265,7 @@ func C08(args []string) {
 		judge("trailing", append(append([]byte{}, st...), 0), true, allRS)
 		judge("trailing", append(append([]byte{}, st...), st...), true, allRS)
 		r.Sample(map[string]any{"family": "corpus", "input": core.Trunc(string(corpus[i]), 40), "stream_hex": core.Trunc(hexs(st), 60)})
-	})
+	}
 	// splices prefix(A)+suffix(B), resealed with a matching CRC so that the decoder is reached
 	var small [][]byte
 	for _, st := range valid {
@@ -267,7 +276,7 @@ func C08(args []string) {
 	if !r.Thorough() && len(small) > 12 {
 		small = small[:12]
 	}
-	core.ParallelFor(len(small)*len(small), func(i int) {
+	caseC := func(i int) {
 		a, b := small[i/len(small)][2:], small[i%len(small)][2:]
 		for x := 4; x <= len(a); x++ {
 			for y := 4; y <= len(b); y++ {
@@ -278,9 +287,50 @@ func C08(args []string) {
 				judge("splice", st, true, []int{1, 4096})
 			}
 		}
-	})
+	}
+	// worker processes with a watchdog: a Read that spins inside the decoder (no result at all) cannot be
+	// interrupted from inside the process; the supervisor kills the worker, the stream in flight is the
+	// violation, and the rest goes on in a fresh worker
+	nA, nB, nC := len(bodies), len(valid), len(small)*len(small)
+	var hangs atomic.Int64
+	r.Sharded(nA+nB+nC, func(i int) {
+		switch {
+		case i < nA:
+			caseA(i)
+		case i < nA+nB:
+			caseB(i - nA)
+		default:
+			caseC(i - nA - nB)
+		}
+	}, core.ShardOpts{Watchdog: 30 * time.Second,
+		// a spinning decoder usually spins on many streams: after the first confirmed hang the watchdog
+		// is shortened, after three the remaining shares are abandoned (reported as a cap)
+		WatchdogNow: func() time.Duration {
+			if hangs.Load() > 0 {
+				return 8 * time.Second
+			}
+			return 30 * time.Second
+		},
+		Abort: func() bool { return hangs.Load() >= 3 },
+		OnDeathDetail: func(i int, kind, tail string, detail []byte) {
+			if kind == "exit" && core.SiteFromTrace(tail) == "?" {
+				core.Infra("worker died outside the code under test while case %d was in flight:\n%s", i, core.Trunc(tail, 1500))
+			}
+			c := c08Case{Family: "in-flight", ReadSize: -1}
+			if len(detail) > 0 {
+				c.CRC, c.StreamHex = detail[0] == 1, hexs(detail[1:])
+			}
+			class := "read-never-returns"
+			if kind == "exit" {
+				class = "crash|" + core.SiteFromTrace(tail)
+			}
+			hangs.Add(1)
+			r.Violation("C08|"+class, fmt.Sprintf("worker %s while this stream was being read (no heartbeat for 30 s; a case normally takes milliseconds): %s", kind, core.Trunc(tail, 300)), c)
+			r.Cap("case %d was abandoned after its worker %sed; the rest of that case's streams were not explored (after three such events the remaining shares are abandoned as well)", i, kind)
+		}})
+	add := r.Added()
 	r.Finish(core.Coverage{
-		"states":                        streams.Load(),
+		"states":                        add["streams"],
 		"transitions":                   r.Evals.Load(),
 		"traces_validated_against_impl": r.Evals.Load(),
 		"distinct_nontrivial":           r.Nontrivial.Load(),
